@@ -35,6 +35,13 @@ Keys     == {<<U_ab, "">>, <<U_ab, "exact">>, <<U_a, "">>, <<U_abc, "">>, <<U_xy
              <<U_a, "prefix">>, <<U_ab, "prefix">>, <<U_adot, "prefix">>, <<U_empty, "prefix">>,
              <<U_adot, "wildcard">>, <<U_dotb, "wildcard">>, <<U_dot, "wildcard">>,
              <<U_adotdotc, "wildcard">>, <<U_x, "wildcard">>}
+U_wampdot == <<"w","a","m","p",".">>
+U_wc_oncreate == <<"w","a","m","p",".",".","o","n","_","c","r","e","a","t","e">>
+U_wc_sub == <<"w","a","m","p",".","s","u","b","s","c","r","i","p","t","i","o","n",".">>
+\* subscriptions to the meta topics themselves (exactly, by prefix, by wildcard)
+MetaKeys == {<<U_wampdot, "prefix">>, <<U_wc_oncreate, "wildcard">>, <<U_wc_sub, "wildcard">>,
+             <<U_subscription_on_delete, "">>, <<U_session_on_leave, "exact">>, <<U_session_on_join, "">>,
+             <<U_registration_on_unregister, "">>, <<U_subscription_on_subscribe, "exact">>}
 BadKeys  == {<<U_bad1, "">>, <<U_bad1, "prefix">>, <<U_bad2, "wildcard">>, <<U_adot, "">>,
              <<U_empty, "">>, <<U_bad3, "prefix">>, <<U_up, "">>, <<U_ab, "bogus">>}
 
@@ -56,11 +63,15 @@ F0 == [limit |-> 0, reverse |-> FALSE, from_t |-> 0, after_t |-> 0, before_t |->
        from_p |-> 0, after_p |-> 0, before_p |-> 0, until_p |-> 0, topic |-> <<>>]
 
 In0 == [op |-> "", s |-> "", req |-> 0, uri |-> <<>>, tag |-> "", id |-> 0, ms |-> 0, how |-> "",
-        args |-> <<>>, uri2 |-> <<>>, f |-> F0, o |-> O0, join |-> [authid |-> "", color |-> "", feats |-> <<>>, local |-> TRUE, q |-> 0]]
+        args |-> <<>>, uri2 |-> <<>>, f |-> F0, o |-> O0, prog |-> <<>>, join |-> [authid |-> "", color |-> "", feats |-> <<>>, local |-> TRUE, q |-> 0]]
 
 N      == Len(h) + 1
 Tag    == "p" \o ToString(N)
-J      == Joined(Cur)
+Busy   == {retry[i].callee : i \in DOMAIN retry} \cup {retry[i].c[1] : i \in DOMAIN retry}
+\* A callee whose handler is retrying a RESULT reads no input meanwhile.  A session
+\* that does not read sends nothing either in generated scenarios (the ids chosen by
+\* the router in its replies could not be bound while they sit in its queue).
+J      == {x \in Joined(Cur) \ Busy : ~sess[x].stalled}
 Sids   == {sess[s].id : s \in DOMAIN sess}
 
 NextId(S) == IF S = {} THEN 1 ELSE (CHOOSE n \in S : \A m \in S : m <= n) + 1
@@ -83,8 +94,9 @@ GJoin ==
     /\ \A m \in 1..(n-1) : Names[m] \in DOMAIN sess
     /\ \E local \in R({TRUE, FALSE}), color \in R({"red", "blue", ""}), feats \in R(FeatSets),
           lid \in R({"u1", "u2"}), rid \in R({"alice", "bob", "carol"}) :
+       \E qs \in W(IF Mode = "stall" THEN <<0, 1, 2, 2>> ELSE <<0>>) :
        LET s == Names[n]
-           j == [authid |-> IF local THEN lid ELSE rid, color |-> color, feats |-> feats, local |-> local, q |-> 0]
+           j == [authid |-> IF local THEN lid ELSE rid, color |-> color, feats |-> feats, local |-> local, q |-> qs]
            i == [In0 EXCEPT !.op = "join", !.s = s, !.join = j]
        IN Step(i, JoinFx(Cur, s, j, NextId(used.sid)))
 
@@ -96,7 +108,7 @@ EaSet == {<<>>, <<[a |-> "authrole", v |-> <<"trusted", "admin">>]>>, <<[a |-> "
           <<[a |-> "authid", v |-> <<"bob", "u2">>], [a |-> "color", v |-> <<"red", "blue">>]>>}
 
 GSubscribe ==
-  \E s \in J : \E bad \in R(1..5) : \E k \in R(IF bad = 1 THEN BadKeys ELSE Keys) :
+  \E s \in J : \E bad \in R(1..6) : \E k \in R(IF bad = 1 THEN BadKeys ELSE IF bad = 2 THEN MetaKeys ELSE Keys) :
     LET i == [In0 EXCEPT !.op = "subscribe", !.s = s, !.req = N, !.uri = k[1], !.o = [O0 EXCEPT !.match = k[2]]]
     IN Step(i, SubscribeFx(Cur, s, N, k[1], k[2], NextId(used.sub)))
 
@@ -111,7 +123,7 @@ GUnsubscribe ==
 GPublish ==
   \E s \in J : \E bad \in R(1..8) : \E u \in R(IF bad = 1 THEN BadURIs ELSE Targets) :
   \E kind \in R(1..8), xl \in R(SidLists), el \in R(SidLists), xa \in R(XaSet), ea \in R(EaSet),
-     ack \in R(BOOLEAN), xme \in W(<<"", "", "t", "f", "f">>), dme \in W(<<FALSE, FALSE, TRUE>>) :
+     ack \in (IF Mode = "stall" THEN {TRUE} ELSE R(BOOLEAN)), xme \in W(<<"", "", "t", "f", "f">>), dme \in W(<<FALSE, FALSE, TRUE>>) :
     LET o == [O0 EXCEPT !.ack = ack, !.xme = xme, !.dme = dme,
                         !.xl = IF kind \in {1, 2} THEN xl ELSE <<>>,
                         !.hx = kind \in {1, 2},
@@ -130,6 +142,36 @@ GRegister ==
         i == [In0 EXCEPT !.op = "register", !.s = s, !.req = N, !.uri = k[1], !.o = o]
     IN Step(i, RegisterFx(Cur, s, N, k[1], o, NextId(used.reg)))
 
+\* join an existing shared registration under its own policy (several callees per registration)
+GRegisterShared ==
+  LET shared == {k \in DOMAIN regs : regs[k].policy \in SharedPolicies} IN
+  IF shared = {} THEN GRegister
+  ELSE \E k \in R(shared) : \E s \in R(IF J \ Rng(regs[k].callees) # {} THEN J \ Rng(regs[k].callees) ELSE J) :
+         LET o == [O0 EXCEPT !.match = k[2], !.invoke = regs[k].policy, !.fwd = regs[k].fwd, !.dcl = regs[k].disclose]
+             i == [In0 EXCEPT !.op = "register", !.s = s, !.req = N, !.uri = k[1], !.o = o]
+         IN Step(i, RegisterFx(Cur, s, N, k[1], o, NextId(used.reg)))
+
+\* a callee other than the newest one leaves a registration with three or more callees
+GUnregisterShared ==
+  LET big == {k \in DOMAIN regs : Len(regs[k].callees) >= 3} IN
+  IF big = {} THEN GRegisterShared
+  ELSE \E k \in R(big) : \E pos \in R(1..(Len(regs[k].callees) - 1)) :
+         LET s == regs[k].callees[pos]
+             i == [In0 EXCEPT !.op = "unregister", !.s = s, !.req = N, !.id = regs[k].id]
+         IN s \in J /\ Step(i, UnregisterFx(Cur, s, N, regs[k].id))
+
+\* a call that is routed to a shared registration
+GCallShared ==
+  LET shared == {k \in DOMAIN regs : Len(regs[k].callees) >= 2}
+      hits == {u \in Targets : BestRegs(Cur, u) \cap shared # {}} IN
+  IF hits = {} THEN GRegisterShared
+  ELSE \E s \in J : \E u \in R(hits) : \E tmo \in W(<<0, 0, 50>>) :
+         LET o == [O0 EXCEPT !.tmo = tmo]
+             i == [In0 EXCEPT !.op = "call", !.s = s, !.req = N, !.uri = u, !.tag = Tag, !.o = o]
+         IN \E k \in R(BestRegs(Cur, u)) : \E callee \in R(Eligible(regs[k])) :
+              /\ \A c \in Rng(regs[k].callees) : ~sess[c].stalled
+              /\ Step(i, CallFx(Cur, s, N, u, o, Tag, k, callee, NextId(used.inv[callee])))
+
 GUnregister ==
   \E s \in J :
     LET ids  == {regs[k].id : k \in DOMAIN regs} \cup {NextId(used.reg) + 3}
@@ -146,7 +188,8 @@ GCall ==
     IN IF BestRegs(Cur, u) = {}
        THEN Step(i, CallFx(Cur, s, N, u, o, Tag, <<>>, "", 0))
        ELSE \E k \in R(BestRegs(Cur, u)) : \E callee \in R(Eligible(regs[k])) :
-              Step(i, CallFx(Cur, s, N, u, o, Tag, k, callee, NextId(used.inv[callee])))
+              /\ \A c \in Rng(regs[k].callees) : ~sess[c].stalled      \* the INVOCATION must be observable
+              /\ Step(i, CallFx(Cur, s, N, u, o, Tag, k, callee, NextId(used.inv[callee])))
 
 GCancel ==
   \E s \in J :
@@ -159,11 +202,33 @@ GCancel ==
 
 InvIds(s) == {calls[c].inv : c \in {cc \in DOMAIN calls : calls[cc].callee = s}}
 
+\* kill-mode cancel of an own pending call (the caller then waits for the callee)
+GCancelKill ==
+  LET mine == {c \in DOMAIN calls : c[1] \in J /\ ~calls[c].canceled} IN
+  IF mine = {} THEN GCancel
+  ELSE \E c \in R(mine) :
+         LET i == [In0 EXCEPT !.op = "cancel", !.s = c[1], !.req = c[2], !.o = [O0 EXCEPT !.mode = "kill"]]
+         IN Step(i, CancelFx(Cur, c[1], c[2], "kill"))
+
+\* the callee answers a live invocation (preferably one with a kill-mode cancel outstanding)
+GAnswer ==
+  LET live == {c \in DOMAIN calls : calls[c].callee \in J}
+      waiting == {c \in live : calls[c].canceled} IN
+  IF live = {} THEN GCancel
+  ELSE \E c \in R(IF waiting # {} THEN waiting ELSE live) : \E how \in W(<<"yield", "yield", "prog", "error">>) :
+         LET s == calls[c].callee  inv == calls[c].inv IN
+         CASE how = "error" -> LET i == [In0 EXCEPT !.op = "inverror", !.s = s, !.id = inv, !.tag = Tag, !.o = [O0 EXCEPT !.err = "app.error.failed"]]
+                               IN Step(i, InvErrorFx(Cur, s, inv, "app.error.failed", Tag))
+           [] OTHER -> LET i == [In0 EXCEPT !.op = "yield", !.s = s, !.id = inv, !.tag = Tag, !.o = [O0 EXCEPT !.prog = (how = "prog")]]
+                       IN Step(i, YieldFx(Cur, s, inv, how = "prog", Tag))
+
 GYield ==
   \E s \in J :
     LET mine == InvIds(s)
+        \* invocations whose caller does not read: the result-retry exception of C07
+        blocked == {calls[c].inv : c \in {cc \in DOMAIN calls : calls[cc].callee = s /\ sess[cc[1]].stalled}}
         any  == used.inv[s] \cup {NextId(used.inv[s]) + 5}
-    IN \E own \in R(1..4) : \E inv \in R(IF mine # {} /\ own # 1 THEN mine ELSE any) :
+    IN \E own \in R(1..4) : \E inv \in R(IF blocked # {} /\ own # 1 THEN blocked ELSE IF mine # {} /\ own # 1 THEN mine ELSE any) :
        \E prog \in W(<<FALSE, FALSE, TRUE>>) :
          LET i == [In0 EXCEPT !.op = "yield", !.s = s, !.id = inv, !.tag = Tag, !.o = [O0 EXCEPT !.prog = prog]]
          IN Step(i, YieldFx(Cur, s, inv, prog, Tag))
@@ -182,10 +247,72 @@ GLeave ==
     LET i == [In0 EXCEPT !.op = "leave", !.s = s, !.how = how]
     IN Step(i, LeaveFx(Cur, s, how, ""))
 
+GStall ==
+  \E s \in {x \in J : ~sess[x].stalled} :
+    Step([In0 EXCEPT !.op = "stall", !.s = s], StallFx(Cur, s))
+
+GResume ==
+  \E s \in {x \in Joined(Cur) : sess[x].stalled} :
+    Step([In0 EXCEPT !.op = "resume", !.s = s], ResumeFx(Cur, s))
+
+RECURSIVE FlatOps(_, _, _)
+FlatOps(progs, s, j) == IF j > Len(progs) THEN <<>>
+                        ELSE (IF progs[j].s = s THEN progs[j].ops ELSE <<>>) \o FlatOps(progs, s, j + 1)
+
+\* --------------------------------------------------------------------------
+\* bursts: concurrent programs (C07 completeness, C08 orders)
+Idx(s) == CHOOSE n \in DOMAIN Names : Names[n] = s
+BTag(s, n) == "B" \o ToString(Idx(s)) \o "." \o ToString(n)
+PubProg(s, u, ack, n) ==
+  [s |-> s, ops |-> [k \in 1..n |-> [In0 EXCEPT !.op = "publish", !.s = s, !.req = N * 100 + k, !.uri = u, !.tag = BTag(s, k),
+                                                  !.id = k, !.ms = Idx(s),
+                                                  !.o = [O0 EXCEPT !.ack = ack, !.xme = "f"]]]]
+
+GBurstPub ==
+  /\ Cardinality(J) >= 2
+  /\ \E p1 \in R(J) : \E p2 \in R(J \ {p1}) : \E u1 \in R(Targets), u2 \in R(Targets), a1 \in R(BOOLEAN), a2 \in R(BOOLEAN),
+        n1 \in R(2..4), n2 \in R(1..3) :
+      LET prog == <<PubProg(p1, u1, a1, n1), PubProg(p2, u2, a2, n2)>>
+          i == [In0 EXCEPT !.op = "burst", !.how = "pub", !.prog = prog]
+      IN /\ h' = Append(h, i)
+         /\ Commit(PubAllFx(Cur, FlatProg(prog, 1)))
+
+\* publishers, a session subscribing/unsubscribing meanwhile, a caller whose callee answers
+\* every invocation with two progressive results and a final one; always the last step
+GBurstMix ==
+  /\ Len(h) = Depth - 1
+  /\ Cardinality(J) >= 2
+  /\ \E p1 \in R(J) : \E c \in R(J \ {p1}) : \E u1 \in R(Targets), k1 \in R(Keys), k2 \in R(Keys), n1 \in R(3..5) :
+      LET held == {subs[k].id : k \in {kk \in DOMAIN subs : c \in subs[kk].members}}
+          churn == [s |-> c, ops |->
+                      <<[In0 EXCEPT !.op = "subscribe", !.s = c, !.req = N * 100 + 50, !.uri = k1[1], !.o = [O0 EXCEPT !.match = k1[2]]]>>
+                      \o (IF held # {} THEN <<[In0 EXCEPT !.op = "unsubscribe", !.s = c, !.req = N * 100 + 51, !.id = CHOOSE x \in held : TRUE]>> ELSE <<>>)
+                      \o <<[In0 EXCEPT !.op = "subscribe", !.s = c, !.req = N * 100 + 52, !.uri = k2[1], !.o = [O0 EXCEPT !.match = k2[2]]]>>]
+          \* a registration whose callees all read, called by somebody else
+          callable == {k \in DOMAIN regs : k[2] = "exact" /\ Len(regs[k].callees) = 1 /\ regs[k].callees[1] \in J}
+          rpc == IF callable = {} THEN <<>>
+                 ELSE LET k == CHOOSE kk \in callable : TRUE
+                          callee == regs[k].callees[1]
+                          callers == J \ {callee}
+                      IN IF callers = {} THEN <<>>
+                         ELSE LET cl == CHOOSE x \in callers : TRUE IN
+                              << [s |-> callee, ops |-> <<[In0 EXCEPT !.op = "respond", !.s = callee, !.id = 2]>>],
+                                 [s |-> cl, ops |-> [j \in 1..3 |-> [In0 EXCEPT !.op = "call", !.s = cl, !.req = N * 100 + 60 + j,
+                                                                                  !.uri = k[1], !.tag = BTag(cl, 10 + j),
+                                                                                  !.o = [O0 EXCEPT !.rprog = TRUE]]]] >>
+          \* one program per session
+          progs0 == <<PubProg(p1, u1, FALSE, n1), churn>> \o rpc
+          names == {progs0[j].s : j \in DOMAIN progs0}
+          merged == [s \in names |-> [s |-> s, ops |-> FlatOps(progs0, s, 1)]]
+          prog == SetToSeq({merged[s] : s \in names})
+          i == [In0 EXCEPT !.op = "burst", !.how = "mix", !.prog = prog]
+      IN /\ h' = Append(h, i) /\ Commit(Cur)
+
 GAdvance ==
   LET dls == {calls[c].deadline - now : c \in {cc \in DOMAIN calls : calls[cc].deadline # 0}}
   IN \E pick \in R(1..3) : \E d \in R(IF dls # {} THEN dls ELSE {1}) :
-     \E ms \in (IF dls # {} /\ pick # 1 THEN W(<<d, d, IF d > 1 THEN d - 1 ELSE d, d + 1>>)
+     \E ms \in (IF retry # <<>> THEN W(<<1, 5, 70000, 70000>>)
+                ELSE IF dls # {} /\ pick # 1 THEN W(<<d, d, IF d > 1 THEN d - 1 ELSE d, d + 1>>)
                 ELSE R({1, 49, 50, 2000})) :
        LET i == [In0 EXCEPT !.op = "advance", !.ms = ms]
        IN Step(i, AdvanceFx(Cur, ms))
@@ -195,6 +322,7 @@ GAdvance ==
 \* meta API
 U_kicked == <<"a","p","p",".","k","i","c","k","e","d">>
 U_badreason == <<"b","a","d"," ","u","r","i">>
+U_shutdown == <<"w","a","m","p",".","c","l","o","s","e",".","s","y","s","t","e","m","_","s","h","u","t","d","o","w","n">>
 SidArgs  == Sids \cup {77}
 RegArgs  == {regs[k].id : k \in DOMAIN regs} \cup {NextId(used.reg) + 3}
 SubArgs  == {subs[k].id : k \in DOMAIN subs} \cup {NextId(used.sub) + 3}
@@ -234,15 +362,17 @@ GMetaSub ==
       [] OTHER     -> MetaStep(s, [In0 EXCEPT !.uri = U_subscription_count_suscribers, !.id = id])
 
 GKill ==
-  \E s \in J : \E which \in W(<<1, 1, 2, 3, 4>>) : \E id \in R(SidArgs), reason \in W(<<<<>>, <<>>, U_kicked, U_badreason>>),
+  \E s \in J : \E which \in W(<<1, 1, 2, 3, 4>>) : \E id \in R(SidArgs), reason \in W(<<<<>>, <<>>, U_kicked, U_badreason, U_shutdown>>),
      role \in R(Roles), aid \in R(Authids) :
     CASE which = 1 -> MetaStep(s, [In0 EXCEPT !.uri = U_session_kill, !.id = id, !.uri2 = reason])
       [] which = 2 -> MetaStep(s, [In0 EXCEPT !.uri = U_session_kill_by_authid, !.args = <<aid>>, !.uri2 = reason])
       [] which = 3 -> MetaStep(s, [In0 EXCEPT !.uri = U_session_kill_by_authrole, !.args = <<role>>, !.uri2 = reason])
       [] OTHER     -> MetaStep(s, [In0 EXCEPT !.uri = U_session_kill_all, !.uri2 = reason])
 
+\* topics somebody else would receive
+Covered(s) == {u \in Targets : \E k \in DOMAIN subs : MatchKey(k, u) /\ subs[k].members \ {s} # {}}
 GTestament ==
-  \E s \in J : \E which \in W(<<1, 1, 1, 2>>) : \E u \in R(Targets), scope \in R({"", "destroyed", "detached"}),
+  \E s \in J : \E which \in W(<<1, 1, 1, 2>>) : \E u \in R(IF Covered(s) # {} THEN Covered(s) ELSE Targets), scope \in R({"", "destroyed", "detached"}),
      xme \in W(<<"", "f">>), xl \in R(SidLists), kind \in R(1..3) :
     LET o == [O0 EXCEPT !.xme = xme, !.xl = IF kind = 1 THEN xl ELSE <<>>, !.hx = kind = 1] IN
     CASE which = 1 -> MetaStep(s, [In0 EXCEPT !.uri = U_session_add_testament, !.uri2 = u, !.how = scope,
@@ -275,20 +405,35 @@ GGetEvents ==
 \* parameter values a kind has
 GenNext ==
   /\ Len(h) < Depth
-  /\ \E kind \in (IF Cardinality(J) < 2 /\ \E n \in DOMAIN Names : Names[n] \notin DOMAIN sess
-                   THEN {"join"} ELSE W(KindBag)) :
+  /\ \E coin \in R(1..2) :
+     \E kind \in (IF Cardinality(J) < 2 /\ \E n \in DOMAIN Names : Names[n] \notin DOMAIN sess
+                   THEN {"join"}
+                   ELSE IF Len(h) = Depth - 1 /\ \E n \in DOMAIN KindBag : KindBag[n] = "bmix" THEN {"bmix"}
+                   \* a kill-mode cancel is outstanding: let the callee answer soon
+                   ELSE IF coin = 1 /\ (\E n \in DOMAIN KindBag : KindBag[n] = "answer")
+                           /\ (\E c \in DOMAIN calls : calls[c].canceled /\ calls[c].callee \in J) THEN {"answer"}
+                   ELSE W(KindBag)) :
      CASE kind = "join"   -> GJoin
        [] kind = "sub"    -> GSubscribe
        [] kind = "unsub"  -> GUnsubscribe
        [] kind = "pub"    -> GPublish
        [] kind = "reg"    -> GRegister
+       [] kind = "regsh"  -> GRegisterShared
+       [] kind = "unregsh" -> GUnregisterShared
+       [] kind = "callsh" -> GCallShared
        [] kind = "unreg"  -> GUnregister
        [] kind = "call"   -> GCall
        [] kind = "cancel" -> GCancel
+       [] kind = "ckill"  -> GCancelKill
+       [] kind = "answer" -> GAnswer
        [] kind = "yield"  -> GYield
        [] kind = "inverr" -> GInvError
        [] kind = "leave"  -> GLeave
        [] kind = "adv"    -> GAdvance
+       [] kind = "bpub"   -> GBurstPub
+       [] kind = "bmix"   -> GBurstMix
+       [] kind = "stall"  -> GStall
+       [] kind = "resume" -> GResume
        [] kind = "msess"  -> GMetaSession
        [] kind = "mreg"   -> GMetaReg
        [] kind = "msub"   -> GMetaSub
